@@ -37,7 +37,7 @@ def fh(h, col, comp=0):
     return (np.asarray(h, dtype=np.float64) * 37.0 + base * 1000003.0 + comp * 0.25) / 1024.0
 
 
-def make_dir(rng, nslab, order, want_ranks, mt, halos_per_slab, scalar_vdev=False, physical=False, idbase=0, z=0.5, no_particles=False):
+def make_dir(rng, nslab, order, want_ranks, mt, halos_per_slab, scalar_vdev=False, physical=False, idbase=0, z=0.5, no_particles=False, lc=False, short_ranks=False):
     root = tempfile.mkdtemp(prefix='verif_hod_')
     sim = 'SimH'
     hdir = os.path.join(root, 'sims', sim, 'halos', 'z%4.3f' % z, 'halo_info')
@@ -45,6 +45,12 @@ def make_dir(rng, nslab, order, want_ranks, mt, halos_per_slab, scalar_vdev=Fals
     header = dict(H0=67.0, BoxSize=2000.0, ParticleMassHMsun=MPART, VelZSpace_to_kms=1.3e5, SimName=sim)
     for s in range(nslab):
         write_asdf(os.path.join(hdir, f'halo_info_{s:03d}.asdf'), dict(header=header, data=dict(id=np.zeros(1, dtype=np.uint64))))
+    if lc:
+        # halo light-cone catalogue: one lc_halo_info.asdf per redshift (so one "slab"), observer position in the header
+        assert nslab == 1
+        lcdir = os.path.join(root, 'sims', sim, 'z%4.3f' % z)
+        os.makedirs(lcdir, exist_ok=True)
+        write_asdf(os.path.join(lcdir, 'lc_halo_info.asdf'), dict(header=dict(header, LightConeOrigins=[-990.0, -990.0, -990.0, -990.0, -990.0, -2990.0]), data=dict(id=np.zeros(1, dtype=np.uint64))))
     sub = os.path.join(root, 'subs', sim, 'z%4.3f' % z)
     os.makedirs(sub)
     import h5py
@@ -70,6 +76,8 @@ def make_dir(rng, nslab, order, want_ranks, mt, halos_per_slab, scalar_vdev=Fals
     # 'random': as drawn
     hdt = [('id', 'i8'), ('x_L2com', 'f4', 3), ('v_L2com', 'f4', 3), ('randoms_exp', 'f4', 3), ('randoms_gaus_vrms', 'f4') if scalar_vdev else ('randoms_gaus_vrms', 'f4', 3), ('sigmav3d_L2com', 'f4'), ('r98_L2com', 'f4'), ('r25_L2com', 'f4'), ('N', 'u4'), ('deltac_rank', 'f4'), ('fenv_rank', 'f4'), ('multi_halos', 'f4'), ('randoms', 'f4'), ('shear_rank', 'f4')]
     pdt = [('pos', 'f4', 3), ('vel', 'f4', 3), ('halo_vel', 'f4', 3), ('halo_mass', 'f4'), ('halo_id', 'i8'), ('Np', 'f4'), ('downsample_halo', 'f4'), ('randoms', 'f4'), ('halo_deltac', 'f4'), ('halo_fenv', 'f4'), ('halo_shear', 'f4'), ('ranks', 'f4'), ('ranksv', 'f4'), ('ranksp', 'f4'), ('ranksr', 'f4'), ('ranksc', 'f4')]
+    if short_ranks:
+        pdt = [f for f in pdt if f[0] not in ('ranksp', 'ranksr', 'ranksc')]  # older subsample files carry only ranks and ranksv
     off = 0
     truth = dict(slabs=[], root=root)
     pserial = 0
@@ -129,7 +137,8 @@ def make_dir(rng, nslab, order, want_ranks, mt, halos_per_slab, scalar_vdev=Fals
             p['halo_fenv'] = fh(host, 'fe')
             p['halo_shear'] = fh(host, 'sh')
             for j, r in enumerate(('ranks', 'ranksv', 'ranksp', 'ranksr', 'ranksc')):
-                p[r] = ser * 8 + j
+                if r in p.dtype.names:
+                    p[r] = ser * 8 + j
             if physical:
                 idx = np.searchsorted(np.sort(hid), host)
                 hs = h[np.argsort(hid)][idx]
@@ -141,7 +150,8 @@ def make_dir(rng, nslab, order, want_ranks, mt, halos_per_slab, scalar_vdev=Fals
                 p['Np'] = 5 + ser % 40
                 p['randoms'] = 1e-4 + ((ser * 0.7548776662466927) % 1.0) * 0.9998
                 for j, r in enumerate(('ranks', 'ranksv', 'ranksp', 'ranksr', 'ranksc')):
-                    p[r] = ((ser * (0.211 + 0.1 * j)) % 1.0) * 2 - 1
+                    if r in p.dtype.names:
+                        p[r] = ((ser * (0.211 + 0.1 * j)) % 1.0) * 2 - 1
         tag = '_MT' if mt else ''
         hf = os.path.join(sub, f'halos_xcom_{s}_seed600_abacushod_oldfenv{tag}_new.h5')
         pf = os.path.join(sub, f'particles_xcom_{s}_seed600_abacushod_oldfenv{tag}' + ('_withranks' if want_ranks else '') + '_new.h5')
@@ -150,7 +160,7 @@ def make_dir(rng, nslab, order, want_ranks, mt, halos_per_slab, scalar_vdev=Fals
         with h5py.File(pf, 'w') as f:
             f.create_dataset('particles', data=p)
         truth['slabs'].append(dict(h=h, p=p))
-    truth.update(sim=sim, sim_dir=os.path.join(root, 'sims'), subsample_dir=os.path.join(root, 'subs'), out=os.path.join(root, 'out'), halos_per_slab=halos_per_slab, z=z)
+    truth.update(sim=sim, sim_dir=os.path.join(root, 'sims'), subsample_dir=os.path.join(root, 'subs'), out=os.path.join(root, 'out'), halos_per_slab=halos_per_slab, z=z, lc=lc)
     return truth
 
 
@@ -186,6 +196,10 @@ def f32(x):
 
 def stage_and_check(run, AH, truth, flags, tracers, chunk, n_chunks, desc):
     sim_params = dict(sim_name=truth['sim'], sim_dir=truth['sim_dir'], subsample_dir=truth['subsample_dir'], z_mock=truth.get('z', 0.5), output_dir=truth['out'])
+    if truth.get('lc'):
+        sim_params['halo_lc'] = True
+    if desc.get('force_mt'):
+        sim_params['force_mt'] = True
     HOD = dict(tracer_flags={t: (t in tracers) for t in ('LRG', 'ELG', 'QSO')}, want_rsd=True, LRG_params={}, ELG_params={}, QSO_params={}, **flags)
     run.progress(desc)
     run.ev()
@@ -258,6 +272,9 @@ def stage_and_check(run, AH, truth, flags, tracers, chunk, n_chunks, desc):
             return run.violation('staging-column-misaligned', dict(column=col, row=i, id_in_row=int(hid[i]), value=float(g.reshape(len(g), -1)[i, 0]), expected=float(e.reshape(len(e), -1)[i, 0]), value_belongs_to_id=owner, nbad_rows=int((~ok).reshape(len(g), -1).any(axis=1).sum()), input_sorted=not unsorted_input, **desc))
         if core.poison_count(g.reshape(len(g), -1)[:, 0]):
             return run.violation('staging-unwritten-rows', dict(column=col, **desc))
+    if truth.get('lc'):
+        if obj.params.get('origin') is None or not np.array_equal(np.asarray(obj.params['origin'], dtype=float), [-990.0, -990.0, -990.0]):
+            return run.violation('staging-lightcone-origin', dict(got=repr(obj.params.get('origin')), **desc))
     # particles
     psrc = np.concatenate([s['p'] for s in sl]) if sl else None
     if truth.get('z', 0.5) != 0.5:
@@ -277,7 +294,8 @@ def stage_and_check(run, AH, truth, flags, tracers, chunk, n_chunks, desc):
         if flags.get('want_shear'):
             checks['pshear'] = psrc['halo_shear']
         if flags.get('want_ranks'):
-            checks.update(pranks=psrc['ranks'], pranksv=psrc['ranksv'], pranksp=psrc['ranksp'], pranksr=psrc['ranksr'], pranksc=psrc['ranksc'])
+            zero = np.zeros(len(psrc))  # documented fallback for rank columns the file does not carry
+            checks.update(pranks=psrc['ranks'], pranksv=psrc['ranksv'], **{'p' + r: (psrc[r] if r in psrc.dtype.names else zero) for r in ('ranksp', 'ranksr', 'ranksc')})
         for col, e in checks.items():
             g = np.asarray(pd[col], dtype=np.float64)
             run.count('particle_values_checked', g.size)
@@ -315,7 +333,12 @@ def check(run):
         # no staged particles: a secondary redshift (the particle subsample is never opened) or particle files that hold nothing
         zmock = [0.575, 0.45, 1.625][k // 11 % 3] if k % 11 == 3 else 0.5
         nopart = k % 11 == 7
-        truth = make_dir(rng, nslab, order, flags['want_ranks'], mt, hps, scalar_vdev=scalar_vdev, idbase=idbase, z=zmock, no_particles=nopart)
+        lc = k % 11 == 9  # halo light-cone layout (a single file per redshift)
+        if lc:
+            nslab, hps, order = 1, [int(rng.integers(2, 60))], ['random', 'decreasing'][k // 11 % 2]
+        short_ranks = flags['want_ranks'] and k % 3 == 2
+        force_mt = (not mt) and k % 4 == 3  # LRG only, but told to use the multi-tracer subsample files
+        truth = make_dir(rng, nslab, order, flags['want_ranks'], mt or force_mt, hps, scalar_vdev=scalar_vdev, idbase=idbase, z=zmock, no_particles=nopart, lc=lc, short_ranks=short_ranks)
         try:
             chunkings = [(-1, 1)]
             if nslab >= 2 and k % 3 == 0:
@@ -327,7 +350,7 @@ def check(run):
                 c = 0 if chunk == -1 else chunk
                 if c * n_jump >= nslab:
                     continue
-                desc = dict(case=k, nslab=nslab, order=order, halos_per_slab=truth['halos_per_slab'], chunk=chunk, n_chunks=nch, tracers=list(tracers), scalar_vdev=scalar_vdev, z_mock=zmock, empty_particle_files=nopart, **flags)
+                desc = dict(case=k, nslab=nslab, order=order, halos_per_slab=truth['halos_per_slab'], chunk=chunk, n_chunks=nch, tracers=list(tracers), scalar_vdev=scalar_vdev, z_mock=zmock, empty_particle_files=nopart, light_cone=lc, short_rank_columns=short_ranks, force_mt=force_mt, **flags)
                 if k < 3:
                     run.sample(desc)
                 stage_and_check(run, AH, truth, flags, tracers, chunk, nch, desc)
